@@ -327,7 +327,7 @@ def assemble(unit_dir, mode='verify'):
             items.append({'kind': 'fn', 'file': os.path.join(REPO, c.file), 'path': c.path, 'anchors': anchors,
                           'replace_stmt': c.replace_stmt, 'replace_expr': c.replace_expr,
                           'no_rewrite': [k[3:] for k in c.opts if k.startswith('no-')],
-                          'sig_only': c.stub, 'retain': c.opts.get('retain'), 'mutself': bool(c.opts.get('mutself')), 'mutparam': [x for x in str(c.opts.get('mutparam', '')).split(',') if x and x != 'True'], 'setiter': [x for x in str(c.opts.get('setiter', '')).split(',') if x and x != 'True']})
+                          'sig_only': c.stub, 'retain': c.opts.get('retain'), 'mutself': bool(c.opts.get('mutself')), 'keeparms': [x for x in str(c.opts.get('keeparms', '')).split('|') if x and x != 'True'], 'havoc': [x for x in str(c.opts.get('havoc', '')).split(',') if x and x != 'True'], 'mutparam': [x for x in str(c.opts.get('mutparam', '')).split(',') if x and x != 'True'], 'setiter': [x for x in str(c.opts.get('setiter', '')).split(',') if x and x != 'True']})
     resp = run_vx(items, meta['features'])
     for it, r in zip(items, resp):
         if not r['ok']:
